@@ -291,7 +291,12 @@ pub fn run() -> Report {
             let mut work: Vec<Vec<Vec<u8>>> = vec![strings];
             while let Some(ss) = work.pop() {
                 let (chain, injected) = host_chain(c, *field, &ss);
-                let world = World::simple(c, &chain.blocks, 0);
+                let mut world = World::simple(c, &chain.blocks, 0);
+                // how the directory is stored is no input of C14 either: every other batch lives in an obfuscated directory
+                // (a key whose length divides none of the injected lengths), so skipped bytes must advance the key position too
+                if (*b + _i) % 2 == 1 {
+                    world.xor_key = Some(vec![0x5a, 0x11, 0xc3, 0x07, 0x99, 0xe0, 0x3c, 0x42]);
+                }
                 // verbosity is an option like any other: batches rotate through default, -v, -vv and -vvv (the file-producing
                 // callbacks; simplestats / opreturn print their result next to the log and stay at the default)
                 let mut spec = RunSpec::new(c.name, cbn);
